@@ -697,6 +697,20 @@ func (lazy *SexpLazyArg) Force(env *Zlisp) (Sexp, error) {
 		env.restoreControlState(callState)
 		return SexpNull, err
 	}
+	// an argument that is a dot path (h.a) evaluates to the path itself;
+	// what it denotes is decided here, while the environment the argument
+	// was written in is still in place, and not later in the scope of
+	// whoever uses the forced value.
+	if sym, isSym := res.(*SexpSymbol); isSym && sym.isDot {
+		if lazy.CurFunc != nil {
+			env.curfunc = lazy.CurFunc
+		}
+		res, err = env.resolveDotArg(sym)
+		if err != nil {
+			env.restoreControlState(callState)
+			return SexpNull, err
+		}
+	}
 	env.restoreControlState(callState)
 	lazy.Value = res
 	lazy.Forced = true
